@@ -4,6 +4,16 @@
 #include <array>
 #include <cassert>
 
+// Verification hook (used by the checks under /verif only): with EVENTPP_VERIF defined and
+// EVENTPP_VERIF_POINT_FN naming a function, that function is called at the marked points — the
+// emptiness pre-checks of the queue that are made without holding the mutex — so that a test
+// scheduler can switch threads there. Without the two defines the marker expands to nothing.
+#if defined(EVENTPP_VERIF) && defined(EVENTPP_VERIF_POINT_FN)
+#define EVENTPP_VERIF_POINT(what) EVENTPP_VERIF_POINT_FN(what)
+#else
+#define EVENTPP_VERIF_POINT(what)
+#endif
+
 namespace eventpp {
 
 namespace internal_ {
